@@ -413,5 +413,3 @@ func ruleHybridFlagBytes(r *Run, rule string) {
 			}())
 	}
 }
-
-
